@@ -19,12 +19,12 @@ theorem new_ok (A : View α) (B : View α)   : new A B  = .ok (s0 A B ) := by
 
 @[simp] def abs (A : View α) (B : View α) (s : State α A.σ B.σ) : A.σ × B.σ := (s.a, s.b)
 
-theorem upd_eq (A : View α) (B : View α)  (s : State α A.σ B.σ) (x : α)  :
+theorem upd_eq (A : View α) (B : View α)  (s : State α A.σ B.σ) (x : α)   :
     (update A B s x).map (abs A B) = (binop mulF A B).upd (abs A B s) x := by
   simp only [update, wrap, mapV, binop, mulF, abs]; gen_tie
-theorem upd_cfg (A : View α) (B : View α) (s s' : State α A.σ B.σ) (x : α) : update A B s x = .ok s' → True := by
+theorem upd_cfg (A : View α) (B : View α) (s s' : State α A.σ B.σ) (x : α)  : update A B s x = .ok s' → True := by
   simp only [update, mulF]; gen_tie
-theorem last_eq (A : View α) (B : View α)  (s : State α A.σ B.σ)  : last A B s = (binop mulF A B).last (abs A B s) := by
+theorem last_eq (A : View α) (B : View α)  (s : State α A.σ B.σ)   : last A B s = (binop mulF A B).last (abs A B s) := by
   simp only [last, wrap, mapV, binop, mulF, abs]; gen_tie
 
 def sim (A : View α) (B : View α)   : Sim (mkView (s0 A B ) (update A B) (last A B)) (binop mulF A B) where
@@ -34,15 +34,15 @@ def sim (A : View α) (B : View α)   : Sim (mkView (s0 A B ) (update A B) (last
   init_abs := by rfl
   upd := fun (s : State α A.σ B.σ) x hs => by
     skip
-    have := upd_eq A B s x  
+    have := upd_eq A B s x   
     exact this
   upd_cfg := fun (s : State α A.σ B.σ) x s' hs h => by
     skip
-    have := upd_cfg A B s s' x h
+    have := upd_cfg A B s s' x  h
     simp_all
   last := fun (s : State α A.σ B.σ) hs => by
     skip
-    have := last_eq A B s  
+    have := last_eq A B s   
     exact this
 
 /-- the Rust text of `Multiply`, as translated, and the model agree on every input: same answers, same panics -/
